@@ -44,7 +44,7 @@ REQUIRED = ('decisions_checked', 'terminal_states_checked',
             'forks')
 
 CUSTOMS = ('kuhn', 'draw5', 'stud5', 'greek', 'courchevel', 'holdem8',
-           'plo8', 'badugi1', 'razzdraw', 'random', 'openstud', 'drawboard')
+           'plo8', 'badugi1', 'razzdraw', 'random', 'openstud', 'drawboard', 'holeboard')
 
 # allowed successor phases (loose automaton; see DESIGN C07)
 NEXT = {
@@ -214,7 +214,7 @@ class PhaseMonitor(Monitor):
 
 def make_monitors():
     return [driver.Observer(), driver.Interleaver(),
-            driver.FinalShowdownRule(), PhaseMonitor()]
+            driver.FinalShowdownRule(), driver.DiscardProbe(), PhaseMonitor()]
 
 
 def gen_kwargs(rng):
